@@ -3,7 +3,7 @@
 From Coq Require Import Permutation String.
 From Statham.Model Require Import Str Orderer Tables.
 From Statham.Generated Require Import Gen_orderer_paths.
-From Statham.Proofs Require Import StrFacts OrdererLoop OrdererSound OrdererWalk OrdererDirect OrdererReach OrdererClosed Agree_orderer.
+From Statham.Proofs Require Import StrFacts OrdererLoop OrdererSound OrdererWalk OrdererDirect OrdererReach OrdererClosed OrdererClasses Agree_orderer.
 
 (* The emission loop of orderer(): on every dependency map with unique keys that is
    closed (dependencies are keys and are transitive, which get_children's transitive
@@ -108,6 +108,23 @@ Theorem C11_orderer_direct : forall paths G roots l,
         forall x, In x (kids paths G c) -> is_class G x = true -> before (class_name G x) k l.
 Proof. exact orderer_direct. Qed.
 Print Assumptions C11_orderer_direct.
+
+(* Completeness of the class list: get_object_classes enumerates exactly the object classes
+   among the roots and everything reachable from them, and the names of ANY returned order
+   are exactly the names of those classes — none missing, none invented (no premise). *)
+Theorem C11_classes_exact : forall paths G roots ocs,
+  get_object_classes paths G roots = Some ocs ->
+  forall c, In c ocs <->
+    is_class G c = true /\ (In c roots \/ exists r, In r roots /\ reach paths G r c).
+Proof. exact object_classes_exact. Qed.
+Print Assumptions C11_classes_exact.
+Theorem C11_order_names_exact : forall paths G roots l,
+  orderer paths G roots = OOk l ->
+  forall k, In k l <->
+    exists c, class_name G c = k /\ is_class G c = true /\
+              (In c roots \/ exists r, In r roots /\ reach paths G r c).
+Proof. exact order_names_exact. Qed.
+Print Assumptions C11_order_names_exact.
 
 (* END TO END, for every identity graph and root list on which the enumeration returns (always,
    on well-formed graphs: C11_orderer_total) and whose object classes have unique names (the
